@@ -1489,12 +1489,13 @@ static int cmdRecord(const std::string &tracePath, const std::string &tier, int 
 {
     const bool quick = tier == "quick";
     std::vector<Job> all;
-    const int cfgs = quick ? 4 : 24, draws = quick ? 24 : 60, reps = quick ? 2 : 4;
-    const int planCfgs = quick ? 1 : 4;
+    const int cfgs = quick ? 8 : 30, draws = quick ? 24 : 60, reps = quick ? 2 : 4;
+    const int planCfgs = quick ? 2 : 5;
     const long budget = quick ? 1500 : 4000;
-    const std::vector<std::string> planMf = quick ? std::vector<std::string>{"sphere3", "torus3", "circles-r4-codim2"}
-                                                  : std::vector<std::string>{"sphere3", "torus3", "plane3", "circles-r4-codim2",
-                                                                             "sphere2-in-r5-codim3", "sphere4"};
+    const std::vector<std::string> planMf =
+        quick ? std::vector<std::string>{"sphere3", "torus3", "plane3", "circles-r4-codim2", "sphere2-in-r5-codim3"}
+              : std::vector<std::string>{"sphere3", "torus3", "plane3", "plane5", "circle3", "circles-r4-codim2",
+                                         "circles-r6-codim3", "sphere2-in-r5-codim3", "sphere4"};
     for (char kind : {'P', 'A', 'T'})
         for (const Manifold &m : manifolds())
         {
